@@ -188,34 +188,41 @@ Fixpoint parse_digits (base : Z) (s : str) (prev_us : bool) (acc : Z) : option Z
   end.
 
 (* int(s, base) for base in {10, 16, 36} on Latin-1 text *)
-Definition py_int (s : str) (base : Z) : res Z :=
-  let s2 := rstrip (lstrip s) in
-  let '(neg, s3) := match s2 with
-                    | c :: t => if ascii_eqb c "+"%char then (false, t)
-                                else if ascii_eqb c "-"%char then (true, t) else (false, s2)
-                    | [] => (false, s2)
-                    end in
-  let s4 := if base =? 16 then
-              match s3 with
-              | c0 :: c1 :: t =>
-                  if ascii_eqb c0 "0"%char && (ascii_eqb c1 "x"%char || ascii_eqb c1 "X"%char) then
-                    match t with
-                    | c2 :: t' => if ascii_eqb c2 "_"%char then t' else t
-                    | [] => t
-                    end
-                  else s3
-              | _ => s3
-              end
-            else s3 in
-  match s4 with
+Definition int_sign (s : str) : bool * str :=
+  match s with
+  | c :: t => if ascii_eqb c "+"%char then (false, t)
+              else if ascii_eqb c "-"%char then (true, t) else (false, s)
+  | [] => (false, s)
+  end.
+
+(* "0x" / "0X" (and one underscore after it) is skipped for base 16 *)
+Definition int_prefix (base : Z) (s : str) : str :=
+  if base =? 16 then
+    match s with
+    | c0 :: c1 :: t =>
+        if ascii_eqb c0 "0"%char && (ascii_eqb c1 "x"%char || ascii_eqb c1 "X"%char) then
+          match t with
+          | c2 :: t' => if ascii_eqb c2 "_"%char then t' else t
+          | [] => t
+          end
+        else s
+    | _ => s
+    end
+  else s.
+
+Definition int_body (base : Z) (neg : bool) (s : str) : res Z :=
+  match s with
   | [] => Err ValueError
   | c :: _ =>
       if ascii_eqb c "_"%char then Err ValueError
-      else match parse_digits base s4 false 0 with
+      else match parse_digits base s false 0 with
            | Some v => Ok (if neg then - v else v)
            | None => Err ValueError
            end
   end.
+
+Definition py_int (s : str) (base : Z) : res Z :=
+  int_body base (fst (int_sign (rstrip (lstrip s)))) (int_prefix base (snd (int_sign (rstrip (lstrip s))))).
 
 Definition from_base16 (s : str) : res Z := py_int s 16.
 Definition from_base36 (s : str) : res Z := py_int s 36.
